@@ -83,7 +83,7 @@ func verifC04Log(tr *verifkit.Trace, u *verifC04Universe, sk *verifC04Sk, fullCh
 			}
 		}
 	}
-	kv := []any{"n", u.counts[sk.mask], "skip", sk.ch.skipDegree, "items", sk.ch.ItemsCount(), "bad", bad, "est", sk.ch.Size(true)}
+	kv := []any{"cnts", u.counts[sk.mask], "skip", sk.ch.skipDegree, "items", sk.ch.ItemsCount(), "bad", bad, "est", sk.ch.Size(true)}
 	tr.Emit("Sk", append(kv, extra...)...)
 }
 
@@ -137,6 +137,11 @@ func TestVerifC04Unique(t *testing.T) {
 	for sc := 0; sc < nsc && sc < len(scenarios); sc++ {
 		sizes := scenarios[(first+sc)%len(scenarios)]
 		universe := 2 * (sizes[0] + sizes[1] + sizes[2]) / 3 // sketches overlap
+		for _, sz := range sizes {
+			if universe < sz+sz/5 {
+				universe = sz + sz/5
+			}
+		}
 		if universe < 1000 {
 			universe = 1000
 		}
@@ -194,7 +199,11 @@ func TestVerifC04Unique(t *testing.T) {
 				res.Steps++
 			}
 			res.Replayed++
-			res.Seen(fmt.Sprintf("sc%d/%s%s%s", sc, p[0].Act()[:5], p[len(p)/2].Act()[:5], p[len(p)-1].Act()[:5]))
+			cls := fmt.Sprintf("sc%d/", sc)
+			for _, st := range p {
+				cls += fmt.Sprintf("%c%d%d", st.Act()[len(st.Act())-1], st.Int("i"), st.Int("j"))
+			}
+			res.Seen(cls)
 		}
 		res.Note("scenario %d sizes %v universe %d counts(all)=%v", sc, sizes, universe, u.counts[u.maskAll(nsk)])
 	}
